@@ -40,6 +40,10 @@ CHECKS = {
    technique='SMT equivalence of the real symbolic derivative (compiled, run on z3 terms, contracted with a symbolic direction) with forward-mode dual-number evaluation by an independent interpreter; counterexamples confirmed by finite differences on the real code',
    text='For every differentiable program of the family and every float argument, z3 shows J.dx equals the dual-number tangent for ALL argument values and directions away from kinks (per output element), including differentiation through loops, scatter/gather, polynomial evaluation, inverse and determinant (2x2, 3x3) and second derivatives (first derivatives fed back in); integer/boolean programs have an identically zero derivative of the right shape.',
    note='Declined: complex (holomorphic) differentiation - nutils raises NotImplementedError there; user-defined function._CustomEvaluable operations (no code to encode).  Rational identities that z3 cannot decide within the per-case budget are counted as unknown (inconclusive), never as success.  Uninterpreted transcendental functions: a rewrite relying on an analytic identity shows up as an unconfirmed model.'),
+ 'C05': dict(level='translation_validation', design='4/C05',
+   technique='symbolic execution of the generated COO/CSR extraction functions on z3 terms; SMT well-formedness of the index data and per-element SMT equivalence of the scattered values with an independent dense denotation',
+   text='For every program of the family (0-d to 4-d, empty axes, loop sums with element-dependent blocks) the COO data of e.simplified.assparse and the CSR data of as_csr(e) have in-range, unique, lexicographically increasing indices (monotone row pointers, strictly increasing columns per row) for ALL integer argument values, and scattering the listed values into zeros equals the dense value for ALL argument values.',
+   note='function.as_coo/as_csr on meshes are covered only through the samples of C09; scipy/mkl consumers are outside.  Index computations that sort symbolic integer data fork per comparison within 64 paths; beyond that the program is counted as not exhaustive.'),
 }
 
 NOT_APPLICABLE = {
